@@ -6,11 +6,11 @@ from collections import Counter
 from vt import core, dsw, seams, explore
 
 CAP = {'quick': 1200, 'thorough': 40000}
-BOUNDED_CAP = {'quick': 250, 'thorough': 20000}
+BOUNDED_CAP = {'quick': 700, 'thorough': 20000}
 WALL = {'quick': 12, 'thorough': 120}     # per design and exploration; an exploration cut short is reported as incomplete
 
 
-def explore_candidates(c, tier, cap=None, bound=None):
+def explore_candidates(c, tier, cap=None, bound=None, baseline=None):
     """-> dict(accepted Counter, rejected, none, ex Exploration, arities set, error) on a block built once."""
     import sweetpea as sp
     block = c.block
@@ -44,7 +44,7 @@ def explore_candidates(c, tier, cap=None, bound=None):
             info['error'] = out
     try:
         ex = explore.explore_choices(run, bound=bound, cap=(cap or (BOUNDED_CAP[tier] if bound else CAP[tier])), on_result=on_result,
-                                    wall=WALL[tier])
+                                    wall=WALL[tier], baseline=baseline)
     except core.HarnessError:
         raise
     except Exception as e:           # the sampler raised: C08's subject
@@ -79,3 +79,40 @@ def possible_keys(block):
     rounds = (T - en._preamble_size) // cs
     leftover = (T - en._preamble_size) % cs
     return en.preamble_solution_count() * pow(en.solution_count(), rounds) * en.leftover_solution_count(), en.solution_count()
+
+
+class RecordingRandom:
+    """A seeded PRNG behind the randrange seam that records every draw as a choice (value - low)."""
+    def __init__(self, seed):
+        import random as _r
+        self.r = _r.Random(seed)
+        self.choices = []
+
+    def randrange(self, a, b=None):
+        lo, hi = (0, a) if b is None else (a, b)
+        v = self.r.randrange(lo, hi)
+        self.choices.append(v - lo)
+        return v
+
+
+def find_accepting_schedule(c, tries=300, wall=6.0):
+    """Heuristic search (seeded PRNG) for ONE draw schedule whose candidate is accepted; it only provides the baseline
+    around which the deviation-bounded exploration is exhaustive."""
+    import time
+    import sweetpea as sp
+    import sweetpea._internal.sampling_strategy.random as Rm
+    t0 = time.time()
+    for k in range(tries):
+        rec = RecordingRandom(1000 + k)
+        with seams.rebound(Rm, 'random', rec), seams.one_candidate():
+            try:
+                exps = core.quiet(sp.synthesize_trials, c.block, 1, sp.RandomGen)
+            except seams.StopExploration:
+                exps = None
+            except Exception:
+                return None
+        if exps:
+            return list(rec.choices)
+        if time.time() - t0 > wall:
+            break
+    return None
